@@ -417,6 +417,37 @@ pub fn conv_obs(what: u32, b: u8) -> Obs {
     r.unwrap_or(Obs::Panic(vec![]))
 }
 
+
+/// the O line of an operation
+pub fn fmt_op(op: &Op) -> String {
+    let mut o = String::new();
+    match op {
+        Op::Process(p, b) => { let _ = writeln!(o, "O P {} {}", hex(p), hex(b)); }
+        Op::Decode(p) => { let _ = writeln!(o, "O D {}", hex(p)); }
+        Op::GetLength(p) => { let _ = writeln!(o, "O L {}", hex(p)); }
+        Op::SetEid(r, e) => { let _ = writeln!(o, "O S {} {}", *r as u8, e); }
+        Op::SetUuid(u) => { let _ = writeln!(o, "O U {}", hex(u)); }
+        Op::Encode { req, id, nums, lists, buf } => {
+            let _ = write!(o, "O E {} {} {}", *req as u8, id, nums.len());
+            for n in nums { let _ = write!(o, " {}", n); }
+            let _ = write!(o, " {}", lists.len());
+            for l in lists { let _ = write!(o, " {}", hex(l)); }
+            let _ = writeln!(o, " {}", hex(buf));
+        }
+        Op::Hdr { what, fld, raw, v } => { let _ = writeln!(o, "O H {} {} {} {}", what, fld, hex(raw), v); }
+        Op::Conv(w, b) => { let _ = writeln!(o, "O V {} {}", w, b); }
+    }
+    o
+}
+
+/// VERIF_TRACE=1: print every case header and operation to stderr BEFORE executing it, so that an abort
+/// (stack overflow, abort(), a hang) can be attributed to an input
+pub fn trace_on() -> bool {
+    use std::sync::OnceLock;
+    static T: OnceLock<bool> = OnceLock::new();
+    *T.get_or_init(|| std::env::var("VERIF_TRACE").map(|v| v == "1").unwrap_or(false))
+}
+
 pub struct Session<'c, 'm> {
     pub ctx: &'c mut MCTPSMBusContext<'m>,
     pub alt: &'c MCTPSMBusContext<'m>,
@@ -494,6 +525,9 @@ impl<'c, 'm> Session<'c, 'm> {
     }
 
     pub fn op(&mut self, op: Op) -> Obs {
+        if trace_on() {
+            eprint!("T {}", fmt_op(&op));
+        }
         let alt = if self.alt_on { Some(self.alt) } else { None };
         let mut obs = run_op(self.ctx, alt, &op);
         if self.twin_on {
@@ -512,23 +546,7 @@ impl<'c, 'm> Session<'c, 'm> {
 
     fn log(&mut self, op: &Op, obs: &Obs) {
         self.nops += 1;
-        let o = &mut self.out;
-        match op {
-            Op::Process(p, b) => { let _ = writeln!(o, "O P {} {}", hex(p), hex(b)); }
-            Op::Decode(p) => { let _ = writeln!(o, "O D {}", hex(p)); }
-            Op::GetLength(p) => { let _ = writeln!(o, "O L {}", hex(p)); }
-            Op::SetEid(r, e) => { let _ = writeln!(o, "O S {} {}", *r as u8, e); }
-            Op::SetUuid(u) => { let _ = writeln!(o, "O U {}", hex(u)); }
-            Op::Encode { req, id, nums, lists, buf } => {
-                let _ = write!(o, "O E {} {} {}", *req as u8, id, nums.len());
-                for n in nums { let _ = write!(o, " {}", n); }
-                let _ = write!(o, " {}", lists.len());
-                for l in lists { let _ = write!(o, " {}", hex(l)); }
-                let _ = writeln!(o, " {}", hex(buf));
-            }
-            Op::Hdr { what, fld, raw, v } => { let _ = writeln!(o, "O H {} {} {} {}", what, fld, hex(raw), v); }
-            Op::Conv(w, b) => { let _ = writeln!(o, "O V {} {}", w, b); }
-        }
+        self.out.push_str(&fmt_op(op));
         let (er, es) = self.eids();
         let o = &mut self.out;
         match obs {
@@ -589,6 +607,9 @@ pub fn with_session<F: FnOnce(&mut Session)>(id: u64, stratum: &str, cfg: &Cfg, 
         let _ = write!(s.out, " {} {} {}", f, d, n);
     }
     let _ = writeln!(s.out);
+    if trace_on() {
+        eprint!("T {}", s.out);
+    }
     f(&mut s);
     let _ = writeln!(s.out, "E");
     let _ = sink.write_all(s.out.as_bytes());
